@@ -68,9 +68,14 @@ def judge(t):
         if not status_ok(v):
             V('C07.2-accounted', 'status of %s is %r, not one of the six documented statuses' % (k, v), what='bad-status')
     need = list(scn['requested'])
+    from verif.gen import mibgen
     for c in t.by('symtab.genCode'):
         if c.ok:
             need.extend(c.res[0].imported)
+            sp = scn.get('modules', {}).get(c.mib)
+            if sp is not None:
+                # ground truth: the modules the text names in its IMPORTS clause
+                need.extend(mibgen.declared_imports(sp))
     # a name is also accounted for when the file fetched under it yielded modules with other
     # names (file named unlike its module: the result is keyed by the canonical module names)
     aliased = set(c.ctx for c in t.by('symtab.genCode') if c.ok and c.ctx != c.mib)
